@@ -50,7 +50,18 @@ pub fn c14(case: &Case, policies: &[Policy]) -> C14Result {
         let mut c = case.clone();
         c.policy = *p;
         c.ops = ops.clone();
-        let mut d = run_keep(&c);
+        // with a squatter on a WAL file name some calls fail with an I/O error under every policy alike: keep
+        // going, what the policies are compared on is each other, not the reference model
+        let mut d = if case.foreign.is_empty() {
+            run_keep(&c)
+        } else {
+            let mut d = Driver::new(&c);
+            d.keep_obs = true;
+            d.lenient = true;
+            d.lenient_io = true;
+            d.run_all(&c.ops);
+            d
+        };
         d.world.close();
         runs.push((*p, d));
     }
